@@ -872,24 +872,47 @@ func c07Place(w *World, cf *ctxFacts, r *Result) {
 			found = true
 			pos := w.Pos(fn.Pos())
 			key := "place:" + node
-			// a scope query with an error exit must dominate the construction
+			// a scope query with an error exit must dominate the construction; the query may sit
+			// in an extracted helper (bool or error result) or be handed over as a bound method
+			closure := helperClosure(w, fn, 3)
 			queried := false
-			for _, b := range fn.Blocks {
-				for _, ins := range b.Instrs {
-					if c, ok := ins.(*ssa.Call); ok {
-						if callee := c.Call.StaticCallee(); callee != nil && cf.scopeQ[callee] {
-							queried = true
+			asking := map[*ssa.Function]bool{} // members of the closure through which the query is reached
+			for q := range cf.scopeQ {
+				asking[q] = true
+			}
+			for changed := true; changed; {
+				changed = false
+				for _, h := range closure {
+					if asking[h] {
+						continue
+					}
+					for _, b := range h.Blocks {
+						for _, ins := range b.Instrs {
+							for _, t := range staticTargets(w, ins) {
+								if asking[t] && !asking[h] {
+									asking[h] = true
+									changed = true
+								}
+							}
 						}
 					}
 				}
 			}
-			scopes := scopeConstsIn(fn)
+			queried = asking[fn]
+			var scopes []string
+			for _, h := range closure {
+				if h == fn || asking[h] {
+					scopes = append(scopes, scopeConstsIn(h)...)
+				}
+			}
+			scopes = uniq(scopes)
+			delete(asking, fn)
 			switch {
 			case !queried:
 				r.Bad(rule, key, pos, node+" is built without asking the scope stack for an enclosing construct")
 			case fmt.Sprint(scopes) != fmt.Sprint(want[node]):
 				r.Bad(rule, key, pos, fmt.Sprintf("%s is admitted inside the scopes %v; required is an enclosing %v (a %s outside of it must be rejected)", strings.ToLower(node), scopes, want[node], strings.ToLower(node)))
-			case !errorGuardBeforeConstruct(fn, node):
+			case !errorGuardBeforeConstruct(w, fn, node, asking):
 				r.Bad(rule, key, pos, "the scope query does not lead to an error exit before "+node+" is built")
 			default:
 				r.Ok(rule, key, pos, fmt.Sprintf("%s only inside %v", strings.ToLower(node), scopes))
@@ -991,7 +1014,11 @@ func c07Place(w *World, cf *ctxFacts, r *Result) {
 }
 
 // errorGuardBeforeConstruct: some If with an error exit dominates the node's construction.
-func errorGuardBeforeConstruct(fn *ssa.Function, node string) bool {
+// errorGuardBeforeConstruct: a two-way branch that dominates the construction of the node has
+// an error exit on one side, and its condition is computed from the result of a call that
+// reaches the scope query (directly, through a helper returning bool / error, or through a
+// bound method handed to a library search).
+func errorGuardBeforeConstruct(w *World, fn *ssa.Function, node string, asking map[*ssa.Function]bool) bool {
 	for _, b := range fn.Blocks {
 		for _, ins := range b.Instrs {
 			mi, ok := ins.(*ssa.MakeInterface)
@@ -999,7 +1026,58 @@ func errorGuardBeforeConstruct(fn *ssa.Function, node string) bool {
 				continue
 			}
 			for d := b.Idom(); d != nil; d = d.Idom() {
-				if len(d.Succs) == 2 && (leadsToErrorReturn(d.Succs[0], 0) || leadsToErrorReturn(d.Succs[1], 0)) {
+				if len(d.Succs) != 2 || !(leadsToErrorReturn(d.Succs[0], 0) || leadsToErrorReturn(d.Succs[1], 0)) {
+					continue
+				}
+				ifi, ok := d.Instrs[len(d.Instrs)-1].(*ssa.If)
+				if !ok {
+					continue
+				}
+				if dependsOnCallInto(w, ifi.Cond, asking, map[ssa.Value]bool{}) || dependsOnScopeLoop(w, fn, ifi.Cond, asking) {
+					return true
+				}
+			}
+		}
+	}
+	return false
+}
+
+// dependsOnScopeLoop: the flag idiom — a bool variable set inside a loop whose own branch
+// asks the scope query (scopeOk := false; for … { if ctx.findScope(s) { scopeOk = true } }).
+func dependsOnScopeLoop(w *World, fn *ssa.Function, cond ssa.Value, asking map[*ssa.Function]bool) bool {
+	var phis []*ssa.Phi
+	var walk func(v ssa.Value, d int)
+	seen := map[ssa.Value]bool{}
+	walk = func(v ssa.Value, d int) {
+		if v == nil || seen[v] || d > 6 {
+			return
+		}
+		seen[v] = true
+		switch x := v.(type) {
+		case *ssa.Phi:
+			phis = append(phis, x)
+			for _, e := range x.Edges {
+				walk(e, d+1)
+			}
+		case *ssa.UnOp:
+			walk(x.X, d+1)
+		case *ssa.BinOp:
+			walk(x.X, d+1)
+			walk(x.Y, d+1)
+		}
+	}
+	walk(cond, 0)
+	for _, ph := range phis {
+		for i, e := range ph.Edges {
+			if _, isConst := e.(*ssa.Const); !isConst {
+				continue
+			}
+			// the edge's predecessor is reached under a branch that asks the query
+			for d := ph.Block().Preds[i]; d != nil; d = d.Idom() {
+				if len(d.Instrs) == 0 {
+					continue
+				}
+				if ifi, ok := d.Instrs[len(d.Instrs)-1].(*ssa.If); ok && dependsOnCallInto(w, ifi.Cond, asking, map[ssa.Value]bool{}) {
 					return true
 				}
 			}
